@@ -241,14 +241,8 @@ func checkDictionary(t dictTarget, field string, auts []autSpec, a *run.Acc) str
 	for _, as := range auts {
 		for _, start := range rangeBounds {
 			for _, end := range rangeBounds {
-				if start != nil && end != nil && !(*start < *end) {
-					continue
-				}
-				if end != nil && *end == "" {
-					// a zero-length key is "no bound" for a []byte parameter (vellum treats it
-					// like nil); [x, "") is not a well-formed non-empty range
-					continue
-				}
+				// every pair of bounds is a legal request, incl. start >= end and the empty
+				// (non-nil) end key, below which no key sorts: such ranges hold nothing
 				var want []string
 				for _, term := range terms {
 					if !as.accept(term) {
@@ -365,9 +359,9 @@ func init() {
 	run.Register(&run.Def{
 		ID:          "C08",
 		Level:       "exploration",
-		Rule:        "bounded-exhaustive: every subset of a 6-term universe (empty term, a, ab, b, ba, 2-byte UTF-8) as the term set of a field x 4 postings patterns (all single-document; alternating 1 / 2-3 documents; all 2 documents; all single-document with frequency 0, i.e. no norm stored) x provenance {built, re-opened, merged once, merged twice} (merging turns single-document frequency-1 terms into single-hit dictionary entries, so the SEQUENCE of encodings met by the iterator's reused scratch list ranges over all patterns) x 25 automata (nil=match-all, exact(u) for every u and an absent term, 5 prefixes incl. a partial UTF-8 byte, 7 vellum regular expressions, 4 vellum Levenshtein distance-1 automata, never-matching) x every well-formed key range over 10 bounds (absent, equal to / between / below / above existing terms; start < end). Oracle: ascending byte order, exactly the accepted terms in range (acceptance decided independently by string functions, Go regexp and an edit-distance function), DictEntry.Count == postings size of that term, Contains for every term of the universe, Cardinality; several live iterators of one dictionary object (every ordered pair over 16 (automaton, range) configurations, stepped in lock step and nested) each return their own sequence; fields without dictionary (absent field, synonym field) give empty results. Non-trivial = term set with >= 2 terms.",
+		Rule:        "bounded-exhaustive: every subset of a 6-term universe (empty term, a, ab, b, ba, 2-byte UTF-8) as the term set of a field x 4 postings patterns (all single-document; alternating 1 / 2-3 documents; all 2 documents; all single-document with frequency 0, i.e. no norm stored) x provenance {built, re-opened, merged once, merged twice} (merging turns single-document frequency-1 terms into single-hit dictionary entries, so the SEQUENCE of encodings met by the iterator's reused scratch list ranges over all patterns) x 25 automata (nil=match-all, exact(u) for every u and an absent term, 5 prefixes incl. a partial UTF-8 byte, 7 vellum regular expressions, 4 vellum Levenshtein distance-1 automata, never-matching) x EVERY pair of range bounds over 10 values (absent, empty key, equal to / between / below / above existing terms), incl. the degenerate ranges start >= end and [x, \"\") which hold nothing. Oracle: ascending byte order, exactly the accepted terms in range (acceptance decided independently by string functions, Go regexp and an edit-distance function), DictEntry.Count == postings size of that term, Contains for every term of the universe, Cardinality; several live iterators of one dictionary object (every ordered pair over 16 (automaton, range) configurations, stepped in lock step and nested) each return their own sequence; fields without dictionary (absent field, synonym field) give empty results. Non-trivial = term set with >= 2 terms.",
 		Assumptions: batchAssumptions,
-		Bounds:      map[string]string{"quick": "all 64 term sets x 4 patterns x 4 provenances x 25 automata x 64 ranges", "thorough": "additionally all 256 subsets of an 8-term universe (adds a longer term sharing a prefix and a term above all others) x the same patterns, provenances, automata and ranges"},
+		Bounds:      map[string]string{"quick": "all 64 term sets x 4 patterns x 4 provenances x 25 automata x 100 ranges", "thorough": "additionally all 256 subsets of an 8-term universe (adds a longer term sharing a prefix and a term above all others) x the same patterns, provenances, automata and ranges"},
 		New:         func() interface{} { return &DictCase{} },
 		Gen: func(tier string, emit func(interface{})) {
 			for _, prov := range []string{"built", "opened", "merged1", "merged2"} {
